@@ -6,8 +6,15 @@ stores it as /verif/seeded/<prop>-<N>/ and runs the named checks (default: the p
 import subprocess, sys, os, json, shutil, tempfile, re
 V = os.path.dirname(os.path.dirname(os.path.abspath(__file__)))
 prop = sys.argv[1]
-checks = sys.argv[2:] or [prop]
-src = "/tmp/seed/%s/_seed" % prop
+checks = [a for a in sys.argv[2:] if not a.startswith("--")] or [prop]
+root = "/tmp/seed"
+offset = 0
+for a in sys.argv[2:]:
+    if a.startswith("--root="):
+        root = a[7:]
+    if a.startswith("--offset="):
+        offset = int(a[9:])
+src = "%s/%s/_seed" % (root, prop)
 env = dict(os.environ, GOFLAGS="-mod=mod", GOPROXY="off", GOSUMDB="off", GOTOOLCHAIN="local")
 def sh(cmd, **kw):
     return subprocess.run(cmd, shell=True, capture_output=True, text=True, env=env, **kw)
@@ -42,10 +49,10 @@ for n in (1, 2, 3):
             ok = clean_demo and patched_demo_fails and suite
     finally:
         sh("git -C /repo worktree remove --force %s" % wt); shutil.rmtree(wt, ignore_errors=True)
-    print("%s-%d verified=%s | %s" % (prop, n, ok, " | ".join(ran)))
+    print("%s-%d verified=%s | %s" % (prop, n + offset, ok, " | ".join(ran)))
     if not ok:
         continue
-    d = os.path.join(V, "seeded", "%s-%d" % (prop, n))
+    d = os.path.join(V, "seeded", "%s-%d" % (prop, n + offset))
     os.makedirs(d, exist_ok=True)
     shutil.copy(patch, os.path.join(d, "patch.diff"))
     shutil.copy(demo, os.path.join(d, "demo_test.go"))
